@@ -9,5 +9,9 @@ package pipeline
 //@ param name: classes=Ident
 
 //@ func (g *gen) Generate(typs []types.Type) (err error)
-//@ param typs: len=2,3
+//@ param typs: len=2
 //@ emits: decls
+//@ serves: pipeline len=2 typs=typs
+//@ o-sig: (f $typs[0], g $typs[1]) (r func())
+//@ o-header: unchecked
+//@ o-text-only: all
